@@ -29,7 +29,7 @@ VOL50 = [(0, OK), (0.005, OK), (12.345, OK), (50, OK), (math.nextafter(50, INF),
 POS = [(1, OK), (7, OK), (96, OK), (0, FREE), (-1, REJ), (1.5, REJ), ("3", REJ), ({"$none": 1}, REJ)]
 # (a numpy integer as the position of a single aspirate/dispense record is refused by the unchanged tree: a spurious
 # refusal, which the statement does not forbid)
-TIP = [({"$tip": "Any"}, OK), (3, OK), ({"$tip": "T8"}, OK), ([1, 2], OK), ([{"$tip": "T2"}, 2], OK), ({"$iter": [1, {"$tip": "T3"}]}, OK), ({"$tuple": [8, 1]}, OK), (0, REJ), (9, REJ), ([1, {"$tip": "Any"}], REJ), ({"$iter": [1, 0]}, REJ)]
+TIP = [({"$tip": "Any"}, OK), (3, OK), ({"$tip": "T8"}, OK), ([1, 2], OK), ([{"$tip": "T2"}, 2], OK), ({"$iter": [1, {"$tip": "T3"}]}, OK), ({"$tuple": [8, 1]}, OK), ([4, {"$tip": "T3"}], OK), ([{"$tip": "T4"}, 8, 4], OK), (0, REJ), (9, REJ), ([1, {"$tip": "Any"}], REJ), ({"$iter": [1, 0]}, REJ)]
 # the status of an exclusion list depends on the destination range and is decided in one_r
 EXCL = [({"$none": 1}, OK), ([], OK), ([3], OK), ([1, 12], OK), ([5, 3], OK), ([3, 3], FREE), ([0], OK), ([13], OK), ([3, 20], OK),
         ({"$iter": [5, 3]}, OK), ({"$tuple": [2, 9, 4]}, OK), ({"$set": [7, 2]}, OK), ({"$iter": [3, 20]}, OK)]  # one-shot iterators, tuples, sets
